@@ -89,15 +89,19 @@ func realData(objs []gObj, oids []string, i int, times []int64) []byte {
 		t := times[i]
 		fmt.Fprintf(&b, "author A <a@e> %d +0000\ncommitter C <c@e> %d +0000\n", t, t)
 		b.WriteString(o.extraHeaders(func(j int) string { return oids[j] }))
-		b.WriteString("\n")
-		b.WriteString(fmt.Sprintf("commit-%d-end\n", i))
-		b.WriteString(strings.Repeat("x", o.pad))
+		if o.pad >= 0 { // pad < 0: no message and no blank line
+			b.WriteString("\n")
+			b.WriteString(fmt.Sprintf("commit-%d-end\n", i))
+			b.WriteString(strings.Repeat("x", o.pad))
+		}
 	case 'g':
 		typ := map[byte]string{'b': "blob", 't': "tree", 'c': "commit", 'g': "tag"}[o.refKind]
 		fmt.Fprintf(&b, "object %s\ntype %s\ntag t%d\ntagger T <t@e> 1 +0000\n", oids[o.ref], typ, i)
 		b.WriteString(o.extraHeaders(func(j int) string { return oids[j] }))
-		b.WriteString("\n")
-		b.WriteString(strings.Repeat("x", o.pad))
+		if o.pad >= 0 {
+			b.WriteString("\n")
+			b.WriteString(strings.Repeat("x", o.pad))
+		}
 	}
 	return b.Bytes()
 }
@@ -364,7 +368,7 @@ type e2eCase struct {
 	nrefs int
 }
 
-var e2eNames = []string{"a", "b", "dir", "file.txt", "x y", "ü", "Makefile", "src", "README", "a.b", "z-1", "sp ace", "q\"uote", "back\\slash", "tab\tname", "star*", "[9]", "semi;colon", "caf\xe9.txt", "a\x01b", "del\x7f", "{}", "{{cc.name}}", "x}", "at@{1}", "co:lon", "new\nline", "-dash", "--names=none", "dir.txt", "src~", "README "}
+var e2eNames = []string{"a", "b", "dir", "file.txt", "x y", "ü", "Makefile", "src", "README", "a.b", "z-1", "sp ace", "q\"uote", "back\\slash", "tab\tname", "star*", "[9]", "semi;colon", "caf\xe9.txt", "a\x01b", "del\x7f", "{}", "{{cc.name}}", "x}", "at@{1}", "co:lon", "new\nline", "-dash", "--names=none", "dir.txt", "src~", "README ", "100%", "a%\"b", "%s%d%v", "50%!"}
 
 // a "git bomb" that is deep rather than wide: 35-45 levels of trees, each holding the level below twice,
 // over a leaf directory; with full names every cited object deep inside has to be described. The scan and
@@ -498,6 +502,9 @@ func genE2ERepo(r *rng, tier string) ([]gObj, []int64) {
 				}
 			}
 			c := gObj{kind: 'c', tree: trees[r.n(len(trees))], parents: ps, pad: r.n(300)}
+			if r.coin(1, 12) {
+				c.pad = -1 // no message, no blank line (seeded change C03k)
+			}
 			if r.coin(1, 60) {
 				c.pad = 1<<20 + r.n(1<<20) // a commit message of more than 1 MiB: the commit's size is its full length (seeded C02y)
 			}
@@ -510,6 +517,9 @@ func genE2ERepo(r *rng, tier string) ([]gObj, []int64) {
 				ref = tags[r.n(len(tags))]
 			}
 			g := gObj{kind: 'g', ref: ref, refKind: objs[ref].kind, pad: r.n(40)}
+			if r.coin(1, 8) {
+				g.pad = -1
+			}
 			genExtra(r, &g, nil, nil)
 			objs = append(objs, g)
 		}
@@ -545,6 +555,10 @@ func genE2ERefs(r *rng, objs []gObj) []string {
 		if r.coin(1, 25) {
 			// Unicode spaces are legal in reference names (only ASCII space and control characters are not)
 			name = p + []string{"rel\u00a0notes", "feature\u3000x", "wide\u2003gap", "nb\u00a0sp/tip"}[r.n(4)]
+		}
+		if r.coin(1, 10) {
+			// a percent sign (a report written through a printf-style call would read it as a verb: seeded C19k)
+			name = p + []string{"rel-100%", "50%25", "%s", "x%"}[r.n(4)]
 		}
 		if r.coin(1, 60) {
 			// a reference name of about 3 KiB (many long components): `for-each-ref` lines and descriptions of any length
@@ -726,7 +740,7 @@ func genSelection(r *rng, objs []gObj, refs []string) (args []string, roots []in
 				}
 				args = append(args, "#"+strconv.Itoa(i)+"^{}")
 				roots = append(roots, t)
-			case form == 7 && objs[i].kind == 'c' && commitReachableFromRefs(objs, refs, i): // :/text
+			case form == 7 && objs[i].kind == 'c' && objs[i].pad >= 0 && commitReachableFromRefs(objs, refs, i): // :/text
 				args = append(args, fmt.Sprintf(":/commit-%d-end", i))
 				roots = append(roots, i)
 			default:
